@@ -93,6 +93,10 @@ def contract_props(c: Any) -> List[str]:
         s.update(cl.tags)
     for iv in c.invariants:
         s.update(iv.tags)
+    if "C03" in s:
+        # C02's clause "a reported path contains no block at which the dangerous value has been excluded" rests on the same
+        # exactness contracts as C03 (kernels exact, validated_in_block exact, checks_field closures exact)
+        s.add("C02")
     return sorted(s)
 
 
@@ -241,6 +245,8 @@ def run_property(pid: str, tier: str, seed: int) -> int:
                     undecided.append({"obligation": o["name"], "reason": "function not executed to the end: " + (o["reason"] or o["status"])})
             continue
         for o in r["obligations"]:
+            if pid == "C02" and "C03" in o["tags"] and "C02" not in o["tags"]:
+                o["tags"] = list(o["tags"]) + ["C02"]        # see contract_props: C02 rests on the exactness clauses of C03
             if pid not in o["tags"] and o["kind"] not in ("safe", "frame", "call-pre"):
                 continue
             o["loops_changed"] = bool(r.get("loops_changed"))
